@@ -1531,3 +1531,30 @@ def matrix_cases(method, strip, impl):
             tmpl, data = mk(v)
             cases.append({'mode': 'template', 'tmpl': tmpl, 'data': data, 'method': method, 'strip': strip, 'impl': impl})
     return cases
+
+
+CRIT8 = ['&', '<', '>', '"', ';', 'a', '#', 'l']
+EXHAUSTIVE_SITES = ['text:brace', 'attr:whole-brace', 'pyattrs:dict', 'builder:child', 'attr:mixed', 'op:fmt-attr-and-text',
+                    'op:join', 'text:list-value']
+
+
+def exhaustive_cases(method, strip, impl, maxlen, part, nparts):
+    """every string of length <= maxlen over the critical alphabet at the core sites (the strings are split
+    over `nparts` shards)"""
+    import itertools
+    sites = dict((n, (w, mk)) for n, w, mk in _site_templates() + _op_templates())
+    cases = []
+    i = 0
+    for n in range(maxlen + 1):
+        for tup in itertools.product(CRIT8, repeat=n):
+            i += 1
+            if i % nparts != part:
+                continue
+            v = {'k': 's', 's': ''.join(tup)}
+            for name in EXHAUSTIVE_SITES:
+                where, mk = sites[name]
+                if name.startswith('pyattrs') and not v['s'].strip():
+                    continue
+                tmpl, data = mk(v)
+                cases.append({'mode': 'template', 'tmpl': tmpl, 'data': data, 'method': method, 'strip': strip, 'impl': impl})
+    return cases
